@@ -574,6 +574,34 @@ AREAS = [
              bind={'GetValidBegin().IsEmpty()': Bb('vb_empty'), 'GetSegments()': ('has_segments', 'ptr'), 'segment->Get("end")': ('snd segment', 'Z')},
              lists={'GetSegments()': ('segments', '(Z * Z)%type')}),
     ]),
+    # ---------------------------------------------------------------------------------------- round 2: C09 argument assembly, shell escaping
+    dict(area='macro2', requires=['Icv.Src.XlPrelude', 'Icv.Macro.MxDefs', 'Icv.Macro.MxModel'], items=[
+        dict(name='macroprocessor_add_argument_helper', func='MacroProcessor::AddArgumentHelper', file='lib/icinga/macroprocessor.cpp', props=['C09'],
+             inputs=[('key', 'mx_bytes'), ('value', 'mx_bytes'), ('add_key', 'bool'), ('add_value', 'bool'), ('sep_set', 'bool'), ('sep', 'mx_bytes')],
+             ret='void', dummy='nil',
+             types={'bytes': dict(coq='mx_bytes', elem='byte', default='0%N'), 'byte': dict(coq='N', eqb='N.eqb')},
+             strings=dict(string='bytes', char='byte', lit='%d%%N'),
+             params={'key': ('key', 'bytes'), 'value': ('value', 'bytes'), 'add_key': Bb('add_key'), 'add_value': Bb('add_value'), 'separator': ('sep', 'bytes')},
+             state=[('$out', '(@nil mx_bytes)', 'list mx_bytes')],
+             emits={'args->Add': ('$out', '{0}', ['bytes'])},
+             bind={'separator.GetType()!=ValueEmpty': Bb('sep_set')}),
+        # the emission of an array-valued argument: the key is repeated according to skip_key / repeat_key
+        dict(name='resolve_arguments_emit_array', func='MacroProcessor::ResolveArguments', file='lib/icinga/macroprocessor.cpp', props=['C09'],
+             region=(r'bool\s+first\s*=\s*true\s*;', r'\}\s*else\s*AddArgumentHelper\(command_arr,\s*arg\.Key,\s*arg\.AValue'), outputs=[],
+             inputs=[('key', 'mx_bytes'), ('skip_key', 'bool'), ('repeat_key', 'bool'), ('skip_value', 'bool'), ('sep_set', 'bool'), ('sep', 'mx_bytes'),
+                     ('values', 'list mx_bytes')], ret='void', dummy='nil',
+             types={'bytes': dict(coq='mx_bytes', elem='byte', default='0%N'), 'byte': dict(coq='N', eqb='N.eqb')},
+             state=[('$out', '(@nil mx_bytes)', 'list mx_bytes')],
+             lists={'static_cast<Array::Ptr>(arg.AValue)': ('values', 'bytes')},
+             calls_st={'AddArgumentHelper': dict(term='(fun xk xv xak xav => {$out} ++ src_macroprocessor_add_argument_helper xk xv xak xav sep_set sep) {0} {1} {2} {3}',
+                                                 updates=['$out'], ret=None, args=[None, 'bytes', 'bytes', 'bool', 'bool', None])},
+             bind={'arg.SkipKey': Bb('skip_key'), 'arg.RepeatKey': Bb('repeat_key'), 'arg.SkipValue': Bb('skip_value'), 'arg.Key': ('key', 'bytes')}),
+        dict(name='utility_escape_shell_arg', func='Utility::EscapeShellArg', file='lib/base/utility.cpp', props=['C09'],
+             inputs=[('s', 'mx_bytes')], ret='bytes', rcoq='mx_bytes', dummy='nil', defines={'_WIN32': False},
+             types={'bytes': dict(coq='mx_bytes', elem='byte', default='0%N'), 'byte': dict(coq='N', eqb='N.eqb')}, ctypes={'String': 'bytes', 'char': 'byte'},
+             strings=dict(string='bytes', char='byte', lit='%d%%N'),
+             lists={'s': ('s', 'byte')}),
+    ]),
     # ---------------------------------------------------------------------------------------- C18 (tracked, outside the subset today)
     dict(area='perm', requires=['Icv.Src.XlPrelude'], items=[
         # builds Expression objects with `new`, writes through an out-parameter: not translatable; listed so that the evidence
